@@ -65,7 +65,7 @@ func check(args []string) int {
 	type cfg struct{ goos, goarch string }
 	cfgs := []cfg{{"", ""}}
 	if *tier == "thorough" {
-		cfgs = []cfg{{"", ""}, {"linux", "386"}, {"darwin", "amd64"}, {"darwin", "arm64"}}
+		cfgs = []cfg{{"", ""}, {"linux", "arm64"}, {"darwin", "amd64"}, {"darwin", "arm64"}}
 	}
 	exit := 0
 	t0 := time.Now()
